@@ -117,7 +117,13 @@ fn run_ops(cfg: &fastcgi_server::Config, full: &[u8], gate0: usize, ops: &[Vec<u
     res.push(nums(&out));
     res.push(raw_obs(&p));
 
-    for op in ops {
+    for (opi, op) in ops.iter().enumerate() {
+        // a clone is the same parser: every other operation is carried out on a clone of the parser as it stands (buffer contents,
+        // cursors, pending output, active stream and all), the original is dropped
+        if opi % 2 == 1 {
+            let c = p.clone();
+            p = c;
+        }
         let a1 = op.get(1).copied().unwrap_or(0);
         let a2 = op.get(2).copied().unwrap_or(0);
         match op.first().copied().unwrap_or(99) {
